@@ -135,3 +135,6 @@ Proof. intros. unfold drop. rewrite skipn_skipn', Z2Nat.inj_add by lia. reflexiv
 Lemma take_drop_split {A} (d : list A) (pos n : Z) : 0 <= pos -> 0 <= n ->
   take n (drop pos d) ++ drop (pos + n) d = drop pos d.
 Proof. intros Hp Hn. rewrite <- drop_drop by lia. unfold take. apply firstn_skipn. Qed.
+
+Lemma take_all {A} (l : list A) : take (zlen l) l = l.
+Proof. unfold take, zlen. rewrite Nat2Z.id. apply firstn_all. Qed.
